@@ -134,6 +134,8 @@ class Polynomial:
         return other + (-self)
 
     def __pow__(self, power, modulo=None):
+        if power != int(power):
+            return self.tosympy() ** power  # Roots are not polynomials: hand over to sympy.
         if power == 0:
             return self.__class__([[1]])
         if power < 0:
@@ -295,6 +297,8 @@ class RationalPolynomial:
         return other + (-self)
 
     def __pow__(self, power, modulo=None):
+        if power != int(power):
+            return self.tosympy() ** power  # Roots are not rational functions: hand over to sympy.
         if power == 0:
             return self.__class__([[1]])
         if power < 0:
